@@ -29,6 +29,9 @@ type Prop struct {
 
 var registry = map[string]*Prop{}
 
+// RunDeadline is the worker's internal deadline (zero: none); long searches inside scenarios consult it.
+var RunDeadline time.Time
+
 func Register(p *Prop) { registry[p.ID] = p }
 
 func Get(id string) *Prop { return registry[id] }
